@@ -97,6 +97,26 @@ pub fn run(op: &str, t: &[&str], v: &[Val], out: &mut Out) -> bool {
             out.named("to_bigint_s", || slack_u(a).to_bigint());
             out.named("from_s", || BigInt::from(slack_u(a)));
             out.named("to_bigint_h", || { let mut x = a.clone(); x += 7u32; x -= 7u32; x.to_bigint() });
+            // zeros reached in different ways (some still own a buffer) through the unsigned -> signed gate
+            macro_rules! zroute {
+                ($name:expr, $z:expr) => {{
+                    out.named(concat!("zr_", $name), || { let z: BigUint = $z; z.to_bigint() });
+                    out.named(concat!("zf_", $name), || { let z: BigUint = $z; BigInt::from(z) });
+                    out.named(concat!("zb_", $name), || { let z: BigUint = $z; BigInt::from_biguint(Sign::Plus, z) });
+                }};
+            }
+            zroute!("sub", a - a);
+            zroute!("subv", a.clone() - a.clone());
+            zroute!("shr", a.clone() >> (64 * a.iter_u64_digits().len() + 3));
+            zroute!("set", { let mut x = a.clone(); x.set_zero(); x });
+            zroute!("new", BigUint::new(vec![0, 0, 0]));
+            zroute!("slice", { let mut x = a.clone(); x.assign_from_slice(&[0, 0]); x });
+            zroute!("mul0", a.clone() * 0u32);
+            zroute!("and", { let mut x = a.clone(); x &= BigUint::ZERO; x });
+            if !a.is_zero() {
+                zroute!("rem", a % a);
+                zroute!("remv", a.clone() % a.clone());
+            }
             out.named("is_zero", || a.is_zero());
             out.named("is_one", || a.is_one());
             out.named("set_zero", || { let mut x = a.clone(); x.set_zero(); x });
